@@ -72,6 +72,7 @@ typedef struct world {
 	msg_rec *msgs;
 	int     nmsgs;
 	int     teardown;             /* root reached teardown: traffic oracles off */
+	void   (*start_hook_fn)(tpt_p tpt, int idx);   /* harness action inside a worker's start hook (C10: a broadcast from there) */
 	int      hook_shutdown_idx1;  /* 1 + index of the thread whose START hook calls tp_shutdown() (n = virtual thread), 0 = none */
 	int      stop_hook_selfsend;  /* C05: every stopping thread self-sends with SELF_DIRECT in its stop hook (bit 1: explicit src) */
 	uint64_t slow_stop_hook_ns;   /* the stop hook keeps its thread in the stopping state for this long */
